@@ -11,11 +11,22 @@ RULE = ('documents: random trees over a 7-tag / 4-id / 3-class / 4-attribute voc
         '(type, universal, id, class, every attribute operator and flag, four combinators, lists, '
         ':not/:is/:where/:matches/:has nested, structural pseudo-classes) rendered to text, 30% of them containing an attribute selector derived from an attribute value present in the document (whole / prefix / suffix / piece / word / dash-prefix, case mangled, i/s flags); every case is run through the IR-level tie (PY-compiled IR -> matcher model) and the end-to-end tie (selector text -> parser model -> matcher model); queries: select from the '
         'top, select from an inner element, match on elements. In addition n/3 cases on documents with REPEATED CONTENT: 1-3 subtrees of a random tree are repeated elsewhere in the same document (under another parent, at another depth, at top level, inside themselves, in the same parent at another position; exact copies, copies wrapped in a fresh element, near-copies differing in one deep attribute / text node), so that distinct elements with equal name, attributes and content (== and equal hash for bs4) have different ancestors and siblings; 75% of their selectors are read off an actual path of the document (a chosen element, some of its ancestors, sometimes a preceding sibling, each described by its own type / id / class / attribute, joined by the combinators that hold: descendant, child, +, ~), used plain, as subject:not(path), :not(path), :is/:where/:matches(path), anchor:has(rest of path), :is(prefix) rest, path *, or in a list with a random selector; the rest are random ASTs. A case is non-trivial when some query returns a '
-        'non-empty result; distinct = distinct (selector, tree) pairs among those.')
+        'non-empty result; distinct = distinct (selector, tree) pairs among those. In addition n/4 cases on documents with '
+        'STRUCTURED ATTRIBUTE VALUES: values of title / data-x / href / rel / lang / type / alt are composed of 1-4 mixed-case '
+        'words joined by blanks, tabs, dashes and (65% of the values) line breaks (LF, CR LF, CR, FF, blank+LF, dash+LF, LF+dash, '
+        'doubled LF; also VT / NEL / LS, which are not CSS white space), with optional leading / trailing separators; a document '
+        'draws from a pool of 3-5 values plus their one-line and case-changed variants, so that elements differ in exactly the '
+        'aspect a selector tests; 70% built through the bs4 API (html, html5, xhtml, xml), 30% serialised and parsed by html.parser / '
+        'lxml / html5lib / lxml-xml (line breaks literal or as character references); selectors are derived from a value the built '
+        'document holds: every operator with an operand cut at word / line / dash boundaries (whole value, first line, text after '
+        'the last line break, last word, inner words, a dash prefix, two words) or at random, case mangled, every spelling of the i / s '
+        'flags and none, double-quoted / single-quoted / unquoted operand, the attribute name case mangled, used alone, with a type, '
+        'doubled on one compound, negated, in :is / :has, before a combinator or in a list.')
 
 
-def make_cases(rng, n, stats=None):
+def make_cases(rng, n, stats=None, vstats=None):
     stats = {} if stats is None else stats
+    vstats = {} if vstats is None else vstats
     cases = []
     feats = {}
     while len(cases) < n:
@@ -46,6 +57,8 @@ def make_cases(rng, n, stats=None):
     # repeated content: drawn from a generator of its own (seeded from `rng` after the cases above, which are unchanged)
     import random
     cases += make_repeat_cases(random.Random(rng.getrandbits(64)), n // 3, stats)
+    # structured (multi-word, multi-line, dashed, mixed-case) attribute values, again from a generator of its own
+    cases += make_attr_value_cases(random.Random(rng.getrandbits(64)), n // 4, vstats)
     return cases
 
 
@@ -96,12 +109,267 @@ def make_repeat_cases(rng, n, stats):
     return cases[:n]
 
 
+# ---------------------------------------------------------------------------------------------
+# structured attribute values: several words, several lines, dashes, mixed case
+# ---------------------------------------------------------------------------------------------
+V_WORDS = ['a', 'b', 'ab', 'B', 'Ab', 'abc', 'x', 'en', 'US', 'us', 'de', 'end', 'END', 'line', 'Line', '1', '中', 'a.b']
+V_BREAKS = ['\n', '\n', '\n', '\r\n', '\r', '\n\n', ' \n', '\n ', '-\n', '\n-', '\f', '\x0b', '\x85', '\u2028']
+V_BREAKS_MARKUP = [b for b in V_BREAKS if b not in ('\f', '\x0b')]     # not XML characters / parse errors in HTML
+V_SEPS = [' ', ' ', ' ', '-', '-', '\t', '  ', '_', '']
+V_ATTRS = ['title', 'data-x', 'href', 'rel', 'lang', 'type', 'alt']
+CSS_WS = ' \t\r\n\f'
+LINE_CHARS = '\n\r\f\x0b\x85\u2028'
+
+
+def gen_value(r, breaks=V_BREAKS):
+    """1-4 words; 65% of the values with more than one word have at least one line break between words."""
+    k = r.choice([1, 2, 2, 3, 3, 4])
+    words = [r.choice(V_WORDS) for _ in range(k)]
+    seps = [r.choice(V_SEPS) for _ in range(k - 1)]
+    if seps and r.random() < 0.65:
+        for i in r.sample(range(k - 1), r.randint(1, min(2, k - 1))):
+            seps[i] = r.choice(breaks)
+    out = words[0]
+    for sp, w in zip(seps, words[1:]):
+        out += sp + w
+    if r.random() < 0.12:
+        out = r.choice(breaks + [' ', '-']) + out
+    if r.random() < 0.12:
+        out += r.choice(breaks + [' ', '-'])
+    return out
+
+
+def one_line(v):
+    return ''.join(' ' if c in LINE_CHARS else c for c in v)
+
+
+def value_pool(r, breaks=V_BREAKS):
+    """Values of one document: a few structured values and, for some of them, the variant on one line, a variant in
+    another case, a variant cut at a line break: elements then differ in exactly what a selector tests."""
+    base = [gen_value(r, breaks) for _ in range(r.randint(3, 5))]
+    pool = list(base)
+    for v in base:
+        x = r.random()
+        if x < 0.3:
+            pool.append(one_line(v))
+        elif x < 0.5:
+            pool.append(r.choice([v.upper(), v.lower(), v.swapcase()]))
+        elif x < 0.7:
+            cuts = [i for i, c in enumerate(v) if c in LINE_CHARS]
+            if cuts:
+                i = r.choice(cuts)
+                pool.append(r.choice([v[:i], v[i + 1:], v[:i + 1]]))
+    return pool
+
+
+def set_values(r, nodes, pool):
+    """Abstract forest with the structured values put on the elements (70% of the elements get 1-2 of them)."""
+    out = []
+    for n in nodes:
+        if n[0] != 'e':
+            out.append(n)
+            continue
+        attrs = [(k, v) for k, v in n[4] if k not in V_ATTRS]
+        if r.random() < 0.7:
+            for k in r.sample(V_ATTRS, r.choice([1, 1, 2])):
+                attrs.append((k, r.choice(pool)))
+            r.shuffle(attrs)
+        out.append(('e', n[1], n[2], n[3], attrs, set_values(r, n[5], pool)))
+    return out
+
+
+def charref_attr(v):
+    """Attribute value for markup with the line breaks written as character references (an XML parser turns a literal
+    line break inside an attribute value into a blank; a reference keeps it)."""
+    return ''.join('&#%d;' % ord(c) if c in '\n\r\t' else c for c in gen.esc_attr(v))
+
+
+def q1(v):
+    """Single-quoted CSS string."""
+    out = []
+    for ch in v:
+        if ch == "'" or ch == '\\':
+            out.append('\\' + ch)
+        elif ord(ch) < 32 or ord(ch) == 127:
+            out.append('\\%x ' % ord(ch))
+        else:
+            out.append(ch)
+    return "'" + ''.join(out) + "'"
+
+
+def tokens_of(v, seps):
+    """[(start, end)] of the maximal runs of characters not in `seps`."""
+    out = []
+    i = 0
+    while i < len(v):
+        if v[i] in seps:
+            i += 1
+            continue
+        j = i
+        while j < len(v) and v[j] not in seps:
+            j += 1
+        out.append((i, j))
+        i = j
+    return out
+
+
+def attr_sel_for_value(r, name, whole, vstats=None):
+    """An attribute selector about the value `whole` of attribute `name`: operand cut at word / line / dash boundaries
+    (or at random), case mangled, with every spelling of the flags, in the three operand notations."""
+    import re
+    n = len(whole)
+    words = tokens_of(whole, CSS_WS + LINE_CHARS + '-')
+    lines = tokens_of(whole, '\n\r')
+    starts = [a for a, _ in words] + [a for a, _ in lines]
+    ends = [b for _, b in words] + [b for _, b in lines]
+    op = r.choice(['=', '~=', '~=', '|=', '|=', '^=', '^=', '$=', '$=', '$=', '*=', '*=', '*=', '!='])
+    aligned = r.random() < 0.7
+
+    def cut(points):
+        return r.choice(points) if aligned and points else r.randint(0, n)
+    if op == '^=':
+        part = whole[:cut(ends)]
+    elif op == '$=':
+        part = whole[cut(starts[-2:] + starts if r.random() < 0.5 else starts):]
+    elif op == '*=':
+        a = cut(starts)
+        bs = [b for b in ends if b >= a]
+        b = r.choice(bs) if aligned and bs else r.randint(a, n)
+        part = whole[a:b]
+    elif op == '~=':
+        ws_words = tokens_of(whole, CSS_WS)
+        x = r.random()
+        if x < 0.7 and ws_words:
+            a, b = r.choice(ws_words)
+            part = whole[a:b]
+        elif x < 0.85 and words:
+            a, b = r.choice(words)
+            part = whole[a:b]
+        elif len(ws_words) >= 2:
+            i = r.randrange(len(ws_words) - 1)
+            part = whole[ws_words[i][0]:ws_words[i + 1][1]]       # two words and what separates them: never one word
+        else:
+            part = whole
+    elif op == '|=':
+        dashes = [i for i, c in enumerate(whole) if c == '-']
+        x = r.random()
+        if x < 0.6 and dashes:
+            part = whole[:r.choice(dashes)]
+        elif x < 0.8 and words:
+            part = whole[:words[0][1]]
+        else:
+            part = whole
+    else:
+        part = whole if r.random() < 0.8 else one_line(whole)
+    x = r.random()
+    if x < 0.25:
+        part = gen.swapcase_some(r, part)
+    elif x < 0.4:
+        part = r.choice([part.upper(), part.lower(), part.swapcase()])
+    flag = r.choice(['', '', '', '', ' i', ' i', ' i', 'i', ' I', ' s', ' s', 's', ' S', '  i ', '\ti', ' s '])
+    x = r.random()
+    if x < 0.2 and re.fullmatch(r'[A-Za-z_][A-Za-z0-9_]*', part):
+        operand = part                                  # an identifier may be written without quotes
+        if flag and flag[0] not in ' \t':
+            flag = ' ' + flag
+    elif x < 0.4:
+        operand = q1(part)
+    else:
+        operand = gen.q(part)
+    if r.random() < 0.15:
+        name = gen.swapcase_some(r, name)
+    if vstats is not None:
+        f = flag.strip().lower() or 'none'
+        d = vstats.setdefault('selectors_by_operator_and_flag', {})
+        d[f'{op} {f}'] = d.get(f'{op} {f}', 0) + 1
+        rest = whole.replace(part, '', 1) if part and part in whole else whole
+        if any(c in rest for c in '\n\r'):
+            vstats['selectors_with_a_line_break_outside_the_operand'] = vstats.get('selectors_with_a_line_break_outside_the_operand', 0) + 1
+        if any(c in part for c in '\n\r'):
+            vstats['selectors_with_a_line_break_inside_the_operand'] = vstats.get('selectors_with_a_line_break_inside_the_operand', 0) + 1
+    pad = r.choice(['', '', '', ' '])
+    return f'[{pad}{name}{pad}{op}{pad}{operand}{flag}]'
+
+
+def make_attr_value_cases(rng, n, vstats):
+    """Documents whose attribute values have inner structure (words, lines, dashes, case), API-built and parser-built,
+    probed with attribute selectors derived from the values the built document holds."""
+    import enc
+    import bs4
+    import warnings
+    cases = []
+    feats = {}
+    vstats.update({'documents': 0, 'cases': 0, 'built': {}, 'attribute_values': 0, 'attribute_values_with_line_break': 0,
+                   'selectors_by_operator_and_flag': {}, 'selectors_with_a_line_break_outside_the_operand': 0,
+                   'selectors_with_a_line_break_inside_the_operand': 0})
+    while len(cases) < n:
+        parsed = rng.random() < 0.3
+        kind, top = gen.gen_doc(rng, max_depth=rng.choice([2, 3]), fan=rng.choice([2, 3, 4]))
+        top = set_values(rng, top, value_pool(rng, V_BREAKS_MARKUP if parsed else V_BREAKS))
+        if parsed:
+            parser = rng.choice(['html.parser', 'lxml', 'html5lib', 'xml'])
+            esc = charref_attr if rng.random() < 0.5 else None
+            body = gen.to_markup([t for t in top if t[0] in ('e', 't', 'c')], xml=parser == 'xml', attr_esc=esc)
+            if parser == 'xml':
+                markup = f'<?xml version="1.0"?><root>{body}</root>'
+            elif rng.random() < 0.5:
+                markup = f'<!DOCTYPE html><html><head></head><body>{body}</body></html>'
+            else:
+                markup = body
+            base = {'markup': markup, 'parser': parser}
+            with warnings.catch_warnings():
+                warnings.simplefilter('ignore')
+                probe = bs4.BeautifulSoup(markup, parser)
+            built = parser
+        else:
+            detached = rng.random() < 0.1
+            base = {'kind': kind, 'tree': top, 'detached': detached}
+            probe = gen.build_doc(kind, top, detached)
+            built = 'api:' + kind
+        els = gen.elements(probe)
+        cands = []
+        for e in els:
+            for k, v in e.attrs.items():
+                if str(k) in V_ATTRS:
+                    whole = ' '.join(v) if isinstance(v, (list, tuple)) else v
+                    if isinstance(whole, str):
+                        cands.append((str(k), whole))
+        if not cands:
+            continue
+        vstats['documents'] += 1
+        vstats['built'][built] = vstats['built'].get(built, 0) + 1
+        vstats['attribute_values'] += len(cands)
+        vstats['attribute_values_with_line_break'] += sum(1 for _, v in cands if any(c in v for c in '\n\r'))
+        multi = [c for c in cands if any(ch in c[1] for ch in '\n\r')]
+        for _ in range(6):
+            k, v = rng.choice(multi) if multi and rng.random() < 0.6 else rng.choice(cands)
+            a = attr_sel_for_value(rng, k, v, vstats)
+            k2, v2 = rng.choice(cands)
+            a2 = attr_sel_for_value(rng, k2, v2)
+            x = rng.random()
+            if x < 0.45:
+                sel = a
+            else:
+                sel = rng.choice([rng.choice(gen.TAGS) + a, '*' + a, a + a2, f'{a}, {a2}', f':not({a})', f'*:not({a}):not({a2})',
+                                  f':is({a}, {gen.gen_complex(rng, 2, feats)})', f':is({a}){a2}', f'{a} > *', f'{a} ~ {a2}',
+                                  f'{a} {a2}', f':has(> {a})', f':has({a}, + {a2})', f'* > {a}'])
+            queries = [('select', [], 0)]
+            queries.append(('select', enc.path_of(rng.choice(els)), 0))
+            queries.append(('match', enc.path_of(rng.choice(els)), 0))
+            queries.append(('match', enc.path_of(rng.choice(els)), 0))
+            cases.append(dict(base, selector=sel, queries=queries))
+    vstats['cases'] = n
+    return cases[:n]
+
+
 def run(chk):
     stats = {}
     chk.coverage['repeated_content'] = stats
+    vstats = {}
+    chk.coverage['structured_attribute_values'] = vstats
 
     def mk(rng, n):
-        return make_cases(rng, n, stats)
+        return make_cases(rng, n, stats, vstats)
     return common_match.run(chk, PID, SOURCES, mk, 2400, 120000, RULE,
                             'SoupVerif.Properties.C01 (model ≡ specification) / correspondence PY select ≡ Model select')
 
